@@ -795,6 +795,7 @@ int main(int argc, char** argv) {
 #endif
   t.property_id = "C08";
   t.run_case = run_case;
+  t.eintr_percent = 25;  // futex_wait may return early (EINTR / spurious 0) in a quarter of the cases
   t.tune = tune;
   t.nontrivial_rule =
       "an operation on the future overlapped the publication window of set_value (value constructed .. set_value / last count_down "
